@@ -31,7 +31,7 @@ FLOORS["thorough"].update({'mixed_env_probes': 20})
 PROFILE = {"weights": {"timeout": 4, "zero": 1, "wait": 2, "succeed": 2.5, "fail": 1.2, "spawn": 1, "join": 1,
                        "interrupt": 0.6, "cb": 0.5, "cond": 5, "chain": 0.4, "cbint": 0.1},
            "max_top": 5, "max_child_scripts": 3, "min_ev": 1, "max_ev": 3, "p_exact": 0.9, "p_raise": 0.15,
-           "p_catch": 0.7, "cond_depth": 3}
+           "p_catch": 0.7, "cond_depth": 3, "p_rational": 0.03}
 
 
 def plan(tier):
@@ -93,6 +93,34 @@ def mixed_env_probe(ctx):
                               [mode, repr(e)], {"probe": "mixed_env"})
 
 
+def big_arity_probe(ctx):
+    """conditions over hundreds of direct operands behave like small ones"""
+    K = kern.RealK.load()
+    for n in (256, 257, 300, 1000):
+        for mode in ("all", "any"):
+            ctx.count("big_arity_probes")
+            env = K.Environment()
+            evs = [env.timeout(1 + (k % 7), value=k) for k in range(n)]
+            c = env.all_of(evs) if mode == "all" else env.any_of(evs)
+            got = []
+
+            def waiter(env, c=c):
+                v = yield c
+                got.append((env.now, len(v.todict())))
+            env.process(waiter(env))
+            case = {"probe": "big_arity", "n": n, "mode": mode}
+            try:
+                env.run()
+            except BaseException as e:
+                ctx.violation("exception@big-arity-condition", "the run raised", repr(e)[:200], case)
+                continue
+            want = [(7, n)] if mode == "all" else [(1, sum(1 for k in range(n) if 1 + (k % 7) == 1))]
+            if got != want:
+                ctx.violation(f"cond-wrong-instant[{n} operands]" if (not got or got[0][0] != want[0][0]) else f"cond-value-wrong[{n} operands]",
+                              "a condition over many operands did not trigger at the instant its predicate first held with the exact value",
+                              {"got": got, "expected": want, "mode": mode}, case)
+
+
 def one_case(ctx, prog):
     K = kern.RealK.load()
     mon = kern.Monitor(agenda=True, waiters=True, interrupts=False)
@@ -120,6 +148,7 @@ def one_case(ctx, prog):
 def run_shard(ctx):
     if ctx.shard == 0:
         mixed_env_probe(ctx)
+        big_arity_probe(ctx)
     for i in ctx.cases(ncases(ctx.tier)):
         case = {"program": kern.gen_program(ctx.rng(i), PROFILE)}
         viol, nt = one_case(ctx, case["program"])
